@@ -108,7 +108,7 @@ func (e *Engine) GenOp(t *rapid.T, g GenCfg) Op {
 		return Op{Kind: "begin"}
 	case k < 22 && g.Managed:
 		n := gen.IntR(t, 0, max(g.MaxBody, 1), "nbody")
-		op := Op{Kind: "updates", End: gen.Pick(t, []string{"ok", "ok", "err", "panic"}, "end")}
+		op := Op{Kind: "updates", End: gen.Pick(t, []string{"ok", "ok", "ok", "err", "err", "panic", "panic", "goexit"}, "end")}
 		for i := 0; i < n; i++ {
 			if g.Snapshots && gen.IntR(t, 0, 5, "bodysnap") == 0 {
 				op.Body = append(op.Body, Op{Kind: "snapshot", What: gen.Pick(t, snapKinds, "snap")})
